@@ -16,6 +16,9 @@ Extends the description language of `gen/desc.py` (kinds 'v', 'D', 'd', 'L',
   ['schema2', [[key, specdesc]...], name, md]   pg.typing.Schema(...)
   ['space', spacedesc]                DNASpec built by gen/spaces.py
   ['dna', spacedesc, seed]            spec.random_dna(Random(seed))
+  ['fn', shape, [desc...], [[name, desc]...]]   lambda / locally defined function
+                                      (FN_SHAPES) whose __defaults__ / __kwdefaults__
+                                      are the described values
 
 Everything is JSON-able, so a case can be printed, replayed and *shrunk*:
 `shrinks(desc)` lists strictly smaller descriptions; `kind(desc)` names the
@@ -23,7 +26,9 @@ class of input of a (minimal) description from harness facts only and is used
 for mechanism keys.
 """
 import copy
+import inspect
 import random
+import types
 import typing
 
 import pyglove as pg
@@ -36,7 +41,19 @@ from pgverif.gen import values as V
 T = pg.typing
 
 EXTRA_STRINGS = ['n_:x', 'n_:-2', 'n_:', '__tuple__x', 'type', 'a"b\\c', ' ']
-STRINGS = V.HOSTILE_STRINGS + EXTRA_STRINGS
+# Text a user can hold in a `str` and that a text file / a line-delimited record
+# file has to carry: unpaired surrogates (os.fsdecode, a cut UTF-16 pair),
+# non-BMP and other non-ASCII text, NUL, every kind of line break, strings that
+# look like JSON or like an escape sequence, long strings.
+FILE_STRINGS = [
+    '\ud800', 'bad\ud83dtail', '\udc80abc', '\udfff', '\udc00\ud800', 'a\udbff',
+    '\U0001f600 smile', '\U00010348', '\U0010ffff', 'caf\xe9 \u4f60\u597d', '\xff', '\ufeff',
+    '\ufffe', '\uffff', 'a\x00b', '\x7f', '\x1b[0m', '\r', 'a\r\nb', '\n', '\n\n', 'a\rb',
+    'x\x0by\x0cz', '\x1c\x1d\x1e', '\x85', '\u2028', 'a\u2029b', '\\u0041', '\\ud800', '\\n',
+    '{"a": 1}', '{"_type": "pgverif.models.Inner"}', '[1, 2]', '["__tuple__", 1]', '"a"',
+    'null', 'NaN', '{"a": 1}\n{"b": 2}', '{', 'y' * 5000, '\xe9\U0001f600' * 35000,
+]
+STRINGS = V.HOSTILE_STRINGS + EXTRA_STRINGS + FILE_STRINGS
 INT_KEYS = [0, 1, 2, -1, 7, 10**12]
 
 SYMBOLS = {
@@ -79,9 +96,187 @@ EXTRA_SPECS = {
     'float-bounds': lambda: T.Float(min_value=-1.5, max_value=1e300, default=0.0).freeze(),
 }
 
+
+
+# -- callables that carry default arguments ---------------------------------------
+
+def fn_with_defaults(x, t=int, s=T.Int(min_value=0), o=M.Inner(p=2), *, k=M.Leaf,
+                     m=(1, float)):
+  """A module-level function (serialized by name) with typed defaults."""
+  return (x, t, s, o, k, m)
+
+
+class Methods:
+  """Class and static methods (serialized by name) with typed defaults."""
+
+  @classmethod
+  def cm(cls, x, t=float, *, k=M.plain_fn):
+    return (cls, x, t, k)
+
+  @staticmethod
+  def sm(x, t=dict, s=T.Str().noneable()):
+    return (x, t, s)
+
+
+class MethodsSub(Methods):
+  pass
+
+
+SYMBOLS.update({
+    'function-defaults': lambda: fn_with_defaults,
+    'classmethod-defaults': lambda: Methods.cm,
+    'classmethod-defaults-inherited': lambda: MethodsSub.cm,
+    'staticmethod-defaults': lambda: Methods.sm,
+})
+
+
+class FnBox(pg.Object):
+  """A symbolic value with callable-typed members."""
+  fn: T.Callable()
+  cb: T.Callable([T.Any()]).noneable() = None
+  extra: T.Any() = None
+
+
+_MODULE_LAMBDA = lambda x, a, b: [x, (a, b)]      # pylint: disable=unnecessary-lambda-assignment
+
+
+def _mk_lambda():
+  return lambda x, a, b: (x, a, b)
+
+
+def _mk_lambda_kwonly():
+  return lambda x, a, *, k, m: (x, a, k, m)
+
+
+def _mk_nested():
+  def nested(x, a, b):
+    return [x, a, b]
+  return nested
+
+
+def _mk_nested_varargs():
+  def nested_va(x, a, *rest, k, **kw):
+    return (x, a, rest, k, sorted(kw))
+  return nested_va
+
+
+def _mk_module_lambda():
+  # a lambda that is not nested in a function (a fresh object per build)
+  return types.FunctionType(_MODULE_LAMBDA.__code__, globals(), '<lambda>')
+
+
+# shape -> (factory, number of positional parameters, keyword-only names)
+FN_SHAPES = {
+    'lambda': (_mk_lambda, 3, ()),
+    'lambda-kwonly': (_mk_lambda_kwonly, 2, ('k', 'm')),
+    'lambda-module': (_mk_module_lambda, 3, ()),
+    'nested': (_mk_nested, 3, ()),
+    'nested-varargs': (_mk_nested_varargs, 2, ('k',)),
+}
+
+
+def build_fn(shape, defaults, kwdefaults):
+  f = FN_SHAPES[shape][0]()
+  f.__defaults__ = tuple(defaults) if defaults else None
+  f.__kwdefaults__ = dict(kwdefaults) if kwdefaults else None
+  return f
+
+
+def is_code_function(f):
+  """A function that JSON carries as code + defaults (not by name)."""
+  return isinstance(f, types.FunctionType) and (
+      f.__name__ == '<lambda>' or bool(f.__code__.co_flags & inspect.CO_NESTED))
+
+
+def call_probe(f):
+  """Calls `f` with exactly the arguments that have no default."""
+  code = f.__code__
+  n = code.co_argcount - len(f.__defaults__ or ())
+  kwonly = code.co_varnames[code.co_argcount:code.co_argcount + code.co_kwonlyargcount]
+  kw = {k: 'kw-' + k for k in kwonly if k not in (f.__kwdefaults__ or {})}
+  return f(*['arg%d' % i for i in range(n)], **kw)
+
+
+def gen_default(rng, depth=2):
+  """A description of a default argument: every serializable kind."""
+  r = rng.random()
+  if r < 0.2:
+    return ['sym', rng.choice(sorted(SYMBOLS))]
+  if r < 0.3:
+    return ['v', rng.choice(STRINGS)] if rng.random() < 0.3 else ['v', V.prim(rng)]
+  if r < 0.42:
+    return gen_spec(rng)
+  if r < 0.56:
+    for _ in range(5):
+      d = gen_object(rng, 1)
+      if not is_partial(d) and buildable(d):
+        return d
+    return ['O', 'Inner', [['p', ['v', 2]]]]
+  if r < 0.6:
+    return ['leaf', rng.randint(0, 3)]
+  if r < 0.7 and depth > 0:
+    return gen_fn(rng, depth - 1)
+  if r < 0.73:
+    return rng.choice([['space', gen_space(rng, 4)], ['schema', 'Inner'],
+                       ['dna', gen_space(rng, 4), rng.randint(0, 99)]])
+  if depth <= 0:
+    return ['sym', rng.choice(sorted(SYMBOLS))]
+  n = rng.choice([1, 1, 2, 3])
+  sub = lambda: gen_default(rng, depth - 1)
+  k = rng.choice('ttlLdD')
+  if k in 'dD':
+    return [k, _fields(rng, n, sub)]
+  return [k, [sub() for _ in range(n)]]
+
+
+def gen_fn(rng, depth=2):
+  shape = rng.choice(['lambda', 'lambda', 'lambda-kwonly', 'lambda-module', 'nested',
+                      'nested', 'nested-varargs'])
+  _, npos, kwonly = FN_SHAPES[shape]
+  n = rng.choice([0, 1, 1, 2, npos])
+  defaults = [gen_default(rng, depth) for _ in range(min(n, npos))]
+  kw = [[k, gen_default(rng, depth)] for k in kwonly if rng.random() < 0.6]
+  return ['fn', shape, defaults, kw]
+
+
+def gen_function_value(rng):
+  """A function with defaults: by itself or as a leaf of a symbolic value."""
+  f = gen_fn(rng)
+  r = rng.random()
+  if r < 0.3:
+    return f
+  if r < 0.45:
+    fields = [['fn', f]]
+    if rng.random() < 0.5:
+      fields.append(['cb', gen_fn(rng, 1)])
+    if rng.random() < 0.5:
+      fields.append(['extra', gen_any(rng, 1)])
+    d = ['O', 'FnBox', fields]
+  elif r < 0.6:
+    cls = rng.choice(UNTYPED)
+    d = ['O', cls, [['x', f]] + ([] if cls in ('Bound', 'NoSymCmp') else [['y', gen_any(rng, 1)]])]
+  elif r < 0.7:
+    d = ['P', 'Required', [['opt', f]]]
+  elif r < 0.85:
+    d = [rng.choice('DDd'), [[gen_key(rng), f]]]
+    if rng.random() < 0.5:
+      d[1] += _fields(rng, 2, lambda: gen_any(rng, 1))
+      d[1] = [kv for i, kv in enumerate(d[1]) if kv[0] not in [x[0] for x in d[1][:i]]]
+  else:
+    d = [rng.choice('LLlt'), [f] + [gen_any(rng, 1) for _ in range(rng.randint(0, 2))]]
+  if rng.random() < 0.35:
+    d = ['D', [['k', d]]] if rng.random() < 0.5 else ['L', [d]]
+  return d
+
+
+def has_code_fn(d):
+  return d[0] == 'fn' or any(has_code_fn(s) for s in subdescs(d))
+
+
 UNTYPED = ['Any2', 'Writable', 'Notifier', 'Bound', 'NoSymCmp']
 FAMILIES = [('prim', 6), ('container', 30), ('object', 16), ('typed-root', 7),
-            ('symbol', 5), ('spec', 14), ('schema', 5), ('space', 8), ('dna', 9)]
+            ('symbol', 5), ('spec', 14), ('schema', 5), ('space', 8), ('dna', 9),
+            ('function', 9)]
 
 
 # -- generation ---------------------------------------------------------------
@@ -96,7 +291,7 @@ def _balanced(s):
 
 
 # A pg.Dict cannot be built with a key that has unbalanced brackets (C10).
-KEY_STRINGS = [s for s in STRINGS if _balanced(s)]
+KEY_STRINGS = [s for s in STRINGS if _balanced(s) and len(s) < 10000]
 
 
 def gen_key(rng):
@@ -114,6 +309,8 @@ def gen_leaf(rng):
     return ['leaf', rng.randint(0, 3)]
   if r < 0.1:
     return ['sym', rng.choice(sorted(SYMBOLS))]
+  if r < 0.125:
+    return gen_fn(rng, 1)
   if r < 0.3:
     return ['v', rng.choice(STRINGS)]
   return ['v', V.prim(rng)]
@@ -253,6 +450,8 @@ def gen_value(rng, family=None):
       d = ['space', gen_space(rng)]
     elif family == 'dna':
       d = ['dna', gen_space(rng), rng.randint(0, 10**6)]
+    elif family == 'function':
+      d = gen_function_value(rng)
     else:
       raise ValueError(family)
     if any(x[0] == 'H' for x in _all(d)) and has_nan(d):
@@ -304,6 +503,10 @@ def _key(k):
   return T.StrKey() if k == '*' else k
 
 
+def _cls(name):
+  return getattr(M, name, None) or globals()[name]
+
+
 def build(d):
   """A fresh value for the description."""
   k = d[0]
@@ -318,7 +521,9 @@ def build(d):
   if k == 't':
     return tuple(build(vv) for vv in d[1])
   if k == 'O':
-    return getattr(M, d[1])(**{kk: build(vv) for kk, vv in d[2]})
+    return _cls(d[1])(**{kk: build(vv) for kk, vv in d[2]})
+  if k == 'fn':
+    return build_fn(d[1], [build(x) for x in d[2]], [(kk, build(vv)) for kk, vv in d[3]])
   if k == 'P':
     return getattr(M, d[1]).partial(**{kk: build(vv) for kk, vv in d[2]})
   if k == 'F':
@@ -374,6 +579,8 @@ def subdescs(d):
     return [v for _, v in d[1]]
   if k == 'H' and d[1] != 'floatv':
     return list(d[2])
+  if k == 'fn':
+    return list(d[2]) + [v for _, v in d[3]]
   return []
 
 
@@ -508,6 +715,13 @@ def shrinks(d):
     v = d[1]
     if isinstance(v, str) and v != 'a':
       out.append(['v', 'a'])
+      if len(v) > 1:
+        # one character of each class the string has, then the halves
+        seen = {}
+        for ch in v[:200]:
+          seen.setdefault(str_class(ch), ch)
+        out += [['v', ch] for ch in seen.values() if ch != 'a']
+        out += [['v', v[:len(v) // 2]], ['v', v[len(v) // 2:]]]
     elif isinstance(v, (list, tuple)):
       out += [['v', x] for x in v]
       out += [['v', type(v)(v[:i] + v[i + 1:])] for i in range(len(v))]
@@ -553,6 +767,27 @@ def shrinks(d):
     for i in range(len(d[2])):
       if len(d[2]) > 2:
         out.append([k, d[1], d[2][:i] + d[2][i + 1:]])
+    return out
+  if k == 'fn':
+    shape, dfl, kw = d[1], d[2], d[3]
+    for i in range(len(dfl)):
+      out.append(['fn', shape, dfl[:i] + dfl[i + 1:], kw])
+    for i in range(len(kw)):
+      out.append(['fn', shape, dfl, kw[:i] + kw[i + 1:]])
+    if shape != 'lambda' and not kw and len(dfl) <= 3:
+      out.append(['fn', 'lambda', dfl, kw])
+    elif shape == 'nested-varargs':
+      out.append(['fn', 'lambda-kwonly', dfl, kw])
+    for i, x in enumerate(dfl):
+      for c in shrinks(x)[:12]:
+        out.append(['fn', shape, dfl[:i] + [c] + dfl[i + 1:], kw])
+      if repr(x) != "['v', 0]":
+        out.append(['fn', shape, dfl[:i] + [['v', 0]] + dfl[i + 1:], kw])
+    for i, (n, x) in enumerate(kw):
+      for c in shrinks(x)[:12]:
+        out.append(['fn', shape, dfl, kw[:i] + [[n, c]] + kw[i + 1:]])
+      if repr(x) != "['v', 0]":
+        out.append(['fn', shape, dfl, kw[:i] + [[n, ['v', 0]]] + kw[i + 1:]])
     return out
   if k in ('TD', 'TL'):
     out.append(['spec', d[1]])
@@ -651,8 +886,16 @@ def str_class(s):
     return 'type-marker'
   if s == '':
     return 'empty'
+  if any(0xD800 <= ord(c) <= 0xDFFF for c in s):
+    return 'surrogate'
+  if len(s) > 1000:
+    return 'long'
+  if '\r' in s:
+    return 'carriage-return'
   if any(ord(c) < 32 for c in s):
     return 'control'
+  if any(ord(c) > 0xFFFF for c in s):
+    return 'astral'
   if any(ord(c) > 126 for c in s):
     return 'unicode'
   if s.isalnum() or s.replace('_', '').isalnum():
@@ -698,6 +941,38 @@ def _space_kind(sp):
   return '+'.join(sorted(feats)) or 'empty'
 
 
+_SYM_CLASS = {'functor-class': 'class', 'builtin-function': 'function', 'generic-alias': 'annotation',
+              'function-defaults': 'function', 'staticmethod-defaults': 'function'}
+
+
+def default_class(d, depth=0):
+  """How a default argument is carried in JSON: the kind of a primitive, or
+  the sort of typed node (class, function, method, annotation, object, opaque,
+  spec, geno, code-function), or a container of such."""
+  k = d[0]
+  if k == 'v':
+    return 'object' if isinstance(d[1], pg.Symbolic) else _prim_kind(d[1])
+  if k == 'sym':
+    return _SYM_CLASS.get(d[1], d[1].split('-')[0].replace('classmethod', 'method'))
+  if k in ('O', 'P', 'F', 'H'):
+    return 'object'
+  if k == 'leaf':
+    return 'opaque'
+  if k in ('spec', 'specx', 'field', 'schema', 'schema2'):
+    return 'spec'
+  if k in ('space', 'dna'):
+    return 'geno'
+  if k == 'fn':
+    return 'code-function'
+  name = {'t': 'tuple', 'l': 'list', 'L': 'List', 'd': 'dict', 'D': 'Dict'}[k]
+  subs = subdescs(d)
+  if not subs:
+    return name + '-empty'
+  if depth >= 1:
+    return name
+  return name + '(' + ','.join(sorted({default_class(x, depth + 1) for x in subs})[:2]) + ')'
+
+
 def kind(d, depth=0):
   """Class of input of a description, from harness facts only."""
   k = d[0]
@@ -727,10 +1002,19 @@ def kind(d, depth=0):
     return f'{name}(first-{first})' if len(d[1]) > 1 else f'{name}({first})'
   if k in ('O', 'P'):
     name = d[1] + ('.partial' if k == 'P' else '')
-    if depth >= 2 or not d[2] or d[1] not in UNTYPED:
+    if depth >= 2 or not d[2] or d[1] not in UNTYPED + ['FnBox']:
       return name
     inner = sorted({kind(s, depth + 1) for _, s in d[2]})
     return f"{name}({','.join(inner[:2])})"
+  if k == 'fn':
+    if depth >= 2:
+      return d[1]
+    parts = []
+    if d[2]:
+      parts.append('default:' + ','.join(sorted({default_class(x) for x in d[2]})[:2]))
+    if d[3]:
+      parts.append('kwdefault:' + ','.join(sorted({default_class(x) for _, x in d[3]})[:2]))
+    return d[1] + ('(' + ';'.join(parts) + ')' if parts else '')
   if k == 'F':
     return 'functor-instance'
   if k == 'H':
@@ -783,6 +1067,17 @@ def show(d):
       return 'add_fn(%s)' % ', '.join(f'{a}={show(b)}' for a, b in d[1])
     if k == 'sym':
       return f'<{d[1]}>'
+    if k == 'fn':
+      return '<%s %s>' % (d[1], ', '.join(
+          [show(x) for x in d[2]] + [f'{n}={show(x)}' for n, x in d[3]]))
+    if k in ('D', 'd'):
+      items = ', '.join(f'{kk!r}: {show(vv)}' for kk, vv in d[1])
+      return ('pg.Dict({%s})' if k == 'D' else '{%s}') % items
+    if k in ('L', 'l', 't'):
+      items = ', '.join(show(vv) for vv in d[1])
+      return {'L': 'pg.List([%s])', 'l': '[%s]', 't': '(%s,)'}[k] % items
+    if k == 'O':
+      return '%s(%s)' % (d[1], ', '.join(f'{kk}={show(vv)}' for kk, vv in d[2]))
     if k in ('TD', 'TL'):
       return f"pg.{'Dict' if k == 'TD' else 'List'}({d[2]!r}, value_spec={SG.show(d[1])})"
     if k == 'spec':
